@@ -20,7 +20,8 @@ REQUIRED_THEOREMS = [
     'C03_switch_columns_published_order',
     'C03_guarded_ll_score', 'C03_guarded_ll_raises', 'C03_guarded_ll_gradient_length', 'C03_guarded_hier_finite_iff',
     'C03_guarded_hier_raises', 'C03_guarded_prior_finite_iff', 'C03_guarded_hier_score_eq',
-    'C03_guarded_hier_posterior_finite_iff', 'C03_guarded_hier_posterior_score_eq']
+    'C03_guarded_hier_posterior_finite_iff', 'C03_guarded_hier_posterior_score_eq',
+    'C03_switch_renamed_selection', 'C03_switch_renamed_free', 'C03_switch_own_names_counterexample']
 RULE = ('individual likelihoods (1-4 outputs, any error models, random grids, optional fixed parameters), '
         'log-posteriors with pints priors, hierarchical likelihoods / posteriors over random population '
         'compositions (generator of C02); evaluateS1 is compared with __call__ (score) and with Richardson '
@@ -33,7 +34,12 @@ RULE = ('individual likelihoods (1-4 outputs, any error models, random grids, op
         'regimen attached) and the Lean assembly, with independently computed outputs; likelihoods / posteriors / '
         'hierarchical likelihoods over the library one-compartment PK model with a dosing regimen (bolus or '
         'infusion, single or periodic, direct or through a depot; harness/refsim.py as solver) are compared with '
-        'the closed-form solution of the documented equations; likelihoods / posteriors / hierarchical likelihoods '
+        'the closed-form solution of the documented equations; the same library model (dosed or not) with '
+        'user-defined parameter names (set_parameter_names before / after the administration, in one call or '
+        'several, names changed twice, the default names handed round among the parameters), some mechanistic '
+        'parameters fixed under the published names while others stay free, first evaluation of either kind, then '
+        'fix / release histories, posteriors and hierarchical likelihoods on top: every coordinate against finite '
+        'differences, names against the names the harness gave; likelihoods / posteriors / hierarchical likelihoods '
         '/ hierarchical posteriors over a mechanistic model with a restricted domain (simulate raises one of ten '
         'kinds of exception outside of it, also exactly on its edge, also with the offending parameter fixed) are '
         'walked through points inside and outside of the domain (one or several individuals outside), either kind '
@@ -51,6 +57,7 @@ ASSUMPTIONS = ['the mechanistic model supplies exact output sensitivities (toy m
 
 N_HISTORY = {'quick': 110, 'thorough': 1500}
 N_DOSED = {'quick': 14, 'thorough': 120}
+N_RENAMED = {'quick': 10, 'thorough': 100}
 N_DOMAIN = {'quick': 40, 'thorough': 500}
 TAG3 = 'C03.covariate_over_pooled'
 TAG22 = 'C03.sensitivities_with_all_mechanistic_parameters_fixed'
@@ -453,12 +460,62 @@ CF_KEY = {'central.drug_amount': ('init', 'A'), 'dose.drug_amount': ('init', 'Ad
           'dose.absorption_rate': ('const', 'ka'), 'global.elimination_rate': ('const', 'ke')}
 
 
-def dosed_model(chi, direct, reg):
+def dosed_model(chi, direct, reg, renames=(), administer=True):
+    """renames: [(when, {current name: new name})] with when = 'before' / 'after' the administration is set"""
     from chi.library import ModelLibrary
     m = ModelLibrary().one_compartment_pk_model()
-    m.set_administration('central', direct=direct)
-    m.set_dosing_regimen(**reg)
+    for when, d in renames:
+        if when == 'before':
+            m.set_parameter_names(dict(d))
+    if administer:
+        m.set_administration('central', direct=direct)
+        m.set_dosing_regimen(**reg)
+    for when, d in renames:
+        if when != 'before':
+            m.set_parameter_names(dict(d))
     return m
+
+
+PUBLIC = {'central.drug_amount': 'Initial amount', 'dose.drug_amount': 'Amount in depot', 'central.size': 'Volume',
+          'dose.absorption_rate': 'Absorption rate', 'global.elimination_rate': 'Elimination rate'}
+BASE = ['central.drug_amount', 'central.size', 'global.elimination_rate']
+
+
+def gen_renames(rng, orig):
+    """user-defined parameter names (set_parameter_names): any non-empty subset of the parameters, given before
+    or after the route of administration is chosen, in one call or two; sometimes the new names are the model's
+    own default names handed round (a cyclic shift, reached through temporary names). Returns the calls and the
+    names the model has to publish afterwards (by position: renaming does not reorder)."""
+    public = {n: n for n in orig}
+    calls = []
+    r = rng.random()
+    if r < 0.15 and len(orig) >= 2:
+        k = int(rng.integers(2, len(orig) + 1))
+        cyc = [orig[int(j)] for j in rng.choice(len(orig), size=k, replace=False)]
+        calls.append(('after', {n: 'tmp %d' % j for j, n in enumerate(cyc)}))
+        calls.append(('after', {'tmp %d' % j: cyc[(j + 1) % k] for j in range(k)}))
+        for j, n in enumerate(cyc):
+            public[n] = cyc[(j + 1) % k]
+        return calls, [public[n] for n in orig]
+    k = int(rng.integers(1, len(orig) + 1))
+    chosen = [orig[int(j)] for j in sorted(rng.choice(len(orig), size=k, replace=False))]
+    early = [n for n in chosen if n in BASE and rng.random() < 0.4]
+    late = [n for n in chosen if n not in early]
+    if early:
+        calls.append(('before', {n: PUBLIC[n] for n in early}))
+    if late and rng.random() < 0.3 and len(late) >= 2:
+        calls.append(('after', {n: PUBLIC[n] for n in late[:1]}))
+        late = late[1:]
+    if late:
+        calls.append(('after', {n: PUBLIC[n] for n in late}))
+    for n in chosen:
+        public[n] = PUBLIC[n]
+    if early and rng.random() < 0.3:
+        # a name given earlier is changed again
+        n = early[0]
+        calls.append(('after', {PUBLIC[n]: PUBLIC[n] + ' (2)'}))
+        public[n] = PUBLIC[n] + ' (2)'
+    return calls, [public[n] for n in orig]
 
 
 def gen_regimen(rng):
@@ -470,19 +527,25 @@ def gen_regimen(rng):
     return reg
 
 
-def dosed_setup(chi, rng):
+def dosed_setup(chi, rng, renamed=False):
     direct = bool(rng.random() < 0.5)
     reg = gen_regimen(rng)
     kind = c04.KINDS[int(rng.integers(4))]
     nt = int(rng.integers(3, 7))
     times = np.sort(rng.choice(np.arange(1, 21) * 0.25, nt, replace=False))
-    model = dosed_model(chi, direct, reg)
-    mnames = list(model.parameters())
+    administer = not (renamed and rng.random() < 0.25)
+    if not administer:
+        direct = True
+    mnames = list(dosed_model(chi, direct, reg, (), administer).parameters())      # (the model file's own names)
+    renames, public = gen_renames(rng, mnames) if renamed else ((), list(mnames))
+    model = dosed_model(chi, direct, reg, renames, administer)
     vals = {'central.drug_amount': float(rng.uniform(0.2, 1.0)), 'dose.drug_amount': float(rng.uniform(0.1, 0.5)),
             'central.size': float(rng.uniform(0.7, 2.0)), 'dose.absorption_rate': float(rng.uniform(0.5, 2.0)),
             'global.elimination_rate': float(rng.uniform(0.3, 1.2))}
     lm = cf.one_compartment_documented(depot=not direct)
     sched = cf.schedule(reg['dose'], reg['start'], reg['duration'], reg['period'], reg['num'], float(times[-1]) + 1)
+    if not administer:
+        sched = []
 
     def solve(p, dosed=True):
         v = dict(zip(mnames, p))
@@ -493,26 +556,50 @@ def dosed_setup(chi, rng):
     clean = solve(p0)[0][0]
     obs = clean * rng.uniform(0.85, 1.15, nt) + 0.02
     sig = list(rng.uniform(0.1, 0.5, 2 if kind == 'CM' else 1))
-    return direct, reg, kind, times, model, mnames, p0, obs, sig, solve
+    return SimpleNamespace(direct=direct, reg=reg, kind=kind, times=times, model=model, mnames=mnames, p0=p0, obs=obs,
+                           sig=sig, solve=solve, renames=renames, public=public, administer=administer)
 
 
-def dosed_case(ctx, chi, rng, i):
-    direct, reg, kind, times, model, mnames, p0, obs, sig, solve = dosed_setup(chi, rng)
+def dosed_case(ctx, chi, rng, i, renamed=False):
+    su = dosed_setup(chi, rng, renamed)
+    direct, reg, kind, times, mnames, p0, obs, sig, solve = (su.direct, su.reg, su.kind, su.times, su.mnames, su.p0,
+                                                             su.obs, su.sig, su.solve)
     em = c04.classes(chi)[kind][0]
 
+    def new_model():
+        return dosed_model(chi, direct, reg, su.renames, su.administer)
+
     def make():
-        return chi.LogLikelihood(dosed_model(chi, direct, reg), em(), list(obs), list(times))
-    names = list(make().get_parameter_names())
+        return chi.LogLikelihood(new_model(), em(), list(obs), list(times))
     n_mech = len(mnames)
+    inp = {'object': 'LogLikelihood', 'mechanistic_model': 'library one-compartment PK model',
+           'administration': ('direct' if direct else 'depot') if su.administer else None,
+           'regimen': reg if su.administer else None, 'error_model': kind, 'times': times, 'obs': obs}
+    tag = 'C03.LogLikelihood/dosed_model'
+    if renamed:
+        inp['set_parameter_names'] = [[w, dict(d)] for w, d in su.renames]
+        tag = 'C03.LogLikelihood/renamed_parameters'
+    # the names the likelihood publishes: the user's names where given, position by position, then the error
+    # model's (taken from an error model of the same kind on an un-renamed model)
+    err_names = list(chi.LogLikelihood(dosed_model(chi, direct, reg, (), su.administer), em(), list(obs),
+                                       list(times)).get_parameter_names())[n_mech:]
+    names = list(su.public) + err_names
+    got = list(make().get_parameter_names())
+    if renamed:
+        ctx.spec(tag + '.published_order', got == names, inp, {'names': got, 'expected': names})
+    if got != names:
+        return
 
     def outs(p, dosed):
         y, S = solve(p, dosed)
         return [[list(y[0]), [list(S[t, 0, :]) for t in range(len(times))], list(obs)]]
-    inp = {'object': 'LogLikelihood', 'mechanistic_model': 'library one-compartment PK model',
-           'administration': 'direct' if direct else 'depot', 'regimen': reg, 'error_model': kind,
-           'times': times, 'obs': obs}
-    ctx.case('LogLikelihood/dosed-%s' % ('direct' if direct else 'depot'),
-             nontrivial='dosed/%s/%s/%s' % (direct, kind, bool(reg['period'])), sample=inp)
+    if renamed:
+        ctx.case('LogLikelihood/renamed-%s' % (('direct' if direct else 'depot') if su.administer else 'undosed'),
+                 nontrivial='renamed/%s/%s/%s/%s' % (direct, su.administer, kind, sorted(set(su.public) - set(mnames))),
+                 sample=inp)
+    else:
+        ctx.case('LogLikelihood/dosed-%s' % ('direct' if direct else 'depot'),
+                 nontrivial='dosed/%s/%s/%s' % (direct, kind, bool(reg['period'])), sample=inp)
     # the stand-in solver against the closed form on this very model (the oracle's own health)
     ll = make()
     x0 = np.array(list(p0) + list(sig))
@@ -524,9 +611,25 @@ def dosed_case(ctx, chi, rng, i):
     ctx.extra['refsim_validation']['comparisons'] += 1
     ctx.extra['refsim_validation']['max_rel_err'] = max(ctx.extra['refsim_validation']['max_rel_err'],
                                                         abs(fresh - ref) / max(1.0, abs(ref)))
-    kit = {'tag': 'C03.LogLikelihood/dosed_model', 'make': make, 'names': names, 'n_mech': n_mech, 'kinds': [kind],
-           'values': dict(zip(names, list(p0) + list(sig))), 'inp': inp, 'outs': outs, 'fd': 2,
-           'rtol_model': 2e-6, 'rtol_same': 1e-7, 'pkpd': True, 'dosed': True}
+    kit = {'tag': tag, 'make': make, 'names': names, 'n_mech': n_mech, 'kinds': [kind],
+           'values': dict(zip(names, list(p0) + list(sig))), 'inp': inp, 'outs': outs, 'fd': None if renamed else 2,
+           'rtol_model': 2e-6, 'rtol_same': 1e-7, 'pkpd': True, 'dosed': bool(su.administer)}
+    if renamed:
+        # some mechanistic parameters fixed under the names the user gave (or left), at least one stays free:
+        # the very first evaluation of the reduced likelihood is either kind
+        ll1 = make()
+        k = int(rng.integers(1, n_mech))
+        fx = {names[int(j)]: float(p0[int(j)]) for j in sorted(rng.choice(n_mech, size=k, replace=False))}
+        if rng.random() < 0.3:
+            fx[names[n_mech]] = float(sig[0])
+        ll1.fix_parameters(fx)
+        free1 = [n for n in names if n not in fx]
+        inp1 = dict(inp, fixed=fx, free=free1)
+        ok_names = list(ll1.get_parameter_names()) == free1
+        ctx.spec(tag + '.published_order', ok_names, inp1, {'names': list(ll1.get_parameter_names()), 'free': free1})
+        if ok_names:
+            x1 = np.array([kit['values'][n] for n in free1])
+            same_point_any_order(ctx, tag, ll1, x1, inp1, bool(rng.random() < 0.6), fd=range(len(x1)), rtol=1e-7)
     run_history(ctx, rng, kit, int(rng.integers(1, 4)))
     # objects built on such likelihoods
     which = i % 3
@@ -536,9 +639,19 @@ def dosed_case(ctx, chi, rng, i):
         same_point_any_order(ctx, 'C03.LogPosterior/dosed_model', post, x0, dict(inp, object='LogPosterior'),
                              bool(rng.random() < 0.6),
                              fd=sorted(int(c) for c in rng.choice(len(x0), 2, replace=False)), rtol=1e-7)
+        if renamed:
+            # a posterior over a likelihood with one mechanistic parameter fixed
+            llp = make()
+            j = int(rng.integers(n_mech))
+            llp.fix_parameters({names[j]: float(p0[j])})
+            xp = np.delete(x0, j)
+            pri = pints.ComposedLogPrior(*[pints.LogNormalLogPrior(0.0, 1.0) for _ in xp])
+            same_point_any_order(ctx, 'C03.LogPosterior/renamed_parameters', chi.LogPosterior(llp, pri), xp,
+                                 dict(inp, object='LogPosterior', fixed={names[j]: float(p0[j])}),
+                                 bool(rng.random() < 0.6), fd=range(len(xp)), rtol=1e-7)
     elif which == 1:
         n_ids = 2
-        lls = [chi.LogLikelihood(dosed_model(chi, direct, reg), em(), list(obs * rng.uniform(0.9, 1.1, len(obs))),
+        lls = [chi.LogLikelihood(new_model(), em(), list(obs * rng.uniform(0.9, 1.1, len(obs))),
                                  list(times)) for _ in range(n_ids)]
         pop = []
         hier = []
@@ -980,6 +1093,8 @@ def run(ctx):
     refsim.install()
     for i in range(N_DOSED[ctx.tier]):
         ctx.guard(dosed_case, ctx, chi, ctx.sub_rng(4 * 10 ** 6 + i), i)
+    for i in range(N_RENAMED[ctx.tier]):
+        ctx.guard(dosed_case, ctx, chi, ctx.sub_rng(6 * 10 ** 6 + i), i, renamed=True)
 
 
 def replay(ctx, data):
